@@ -267,13 +267,21 @@ func parse(pattern string, opts *OptionsType) *Result {
 			res.Error = fmt.Sprintf("Index %d out of range %q", *opts.Index, fs.FrameRange())
 			return res
 		}
-		fs, _ = fileseq.NewFileSequencePad(frame, padStyle)
+		fs, err = fileseq.NewFileSequencePad(frame, padStyle)
+		if err != nil {
+			res.Error = err.Error()
+			return res
+		}
 		_ = fs.SetFrameRange(strconv.Itoa(fs.Start()))
 	}
 
 	if opts.Frame != nil {
 		frame, _ := fs.Frame(*opts.Frame)
-		fs, _ = fileseq.NewFileSequencePad(frame, padStyle)
+		fs, err = fileseq.NewFileSequencePad(frame, padStyle)
+		if err != nil {
+			res.Error = err.Error()
+			return res
+		}
 		_ = fs.SetFrameRange(strconv.Itoa(fs.Start()))
 	}
 
